@@ -5,10 +5,12 @@ miss=0
 for d in seeded/*/; do
   n=$(basename $d); id=${n%-*}; var=${n#*-}
   [ -f $d/patch.diff ] || continue
+  # optional: REGRESS_FROM=C13-D resumes an interrupted run at that change
+  if [ -n "${REGRESS_FROM:-}" ] && [[ "$n" < "$REGRESS_FROM" ]]; then continue; fi
   # optional filter: REGRESS_VARIANTS="D E F" restricts the run to those variants
   if [ -n "${REGRESS_VARIANTS:-}" ] && ! echo " $REGRESS_VARIANTS " | grep -q " $var "; then continue; fi
   git -C /repo apply /verif/$d/patch.diff || { echo "$n: PATCH DOES NOT APPLY"; continue; }
-  out=$(./check $id quick 2>&1); rc=$?
+  out=$(timeout 1200 ./check $id quick 2>&1); rc=$?
   git -C /repo checkout -- . ; git -C /repo clean -fdq
   sig=$(echo "$out" | grep -m1 "signature:" | sed 's/ *signature: //')
   if [ $rc -ne 1 ]; then miss=$((miss+1)); echo "$n: rc=$rc  MISSED/ERROR $(echo "$out" | grep -m1 MACHINERY)"; else echo "$n: detected  $sig"; fi
